@@ -26,7 +26,7 @@ class C09(Prop):
                 "NV.C09.flags_clear_after_error", "NV.C09.pending_tasks_preserved",
                 "NV.C09.recover_preserves_pending", "NV.C09.callout_sweep_continues_after_error",
                 "NV.C09.freed_conn_never_used", "NV.C09.idle_tick_no_crash"]
-    witness_theorems = ["NV.C09.connect_error_releases_record"]
+    witness_theorems = ["NV.C09.connect_error_releases_record", "NV.C09.connect_refs_balanced"]
     consts = [("logCatches", "NV_LOG_CATCHES"), ("numConsts", "5")]
     const_headers = ["lib/efuns/options.h"]
     const_prelude = "#ifdef LOG_CATCHES\n#define NV_LOG_CATCHES 1\n#else\n#define NV_LOG_CATCHES 0\n#endif\n"
